@@ -225,6 +225,65 @@ static void deep_history(const Cfg &cfg, const std::vector<Call> &A, const std::
     }
 }
 
+// ---- object lifetimes: several transform objects alive at the same time.  Events over three slots (slot 0 and 1: domain 8,
+// slot 2: domain 16): new(slot), delete(slot), use(slot) = a forward transform of the slot's full domain compared with the
+// closed-form oracle.  Every well-formed event sequence up to a length is executed (new only on an empty slot, delete / use only
+// on a live one); after a delete, blocks of the sizes the object had are allocated and overwritten, so that memory an object has
+// released does not keep its old contents by luck.  State shared between objects (a table cache, a reference count) shows as a
+// wrong transform or as a sanitizer report in the C18 build.
+static void lifetime_history(const std::vector<int> &ev)
+{
+    static const u64 DOM[3] = {8, 8, 16};
+    NTT_Goldilocks *obj[3] = {nullptr, nullptr, nullptr};
+    std::vector<void *> junk;
+    std::string hs;
+    for (int e : ev) hs += (hs.empty() ? "" : ",") + std::to_string(e);
+    std::string cs_ = "deep=4 D=8 nthreads=2 hist=" + hs;
+    for (size_t i = 0; i < ev.size(); i++)
+    {
+        int kind = ev[i] / 3, slot = ev[i] % 3;
+        if (kind == 0) obj[slot] = new NTT_Goldilocks(DOM[slot], 2);
+        else if (kind == 1)
+        {
+            delete obj[slot];
+            obj[slot] = nullptr;
+            for (size_t k : {(size_t)4, (size_t)5, (size_t)8, (size_t)9, (size_t)16, (size_t)17}) { void *p = malloc(k * 8); memset(p, 0xA5, k * 8); junk.push_back(p); }
+        }
+        else
+        {
+            Call c{M_NTT, DOM[slot], 0, 2, 3, 1};
+            std::vector<u64> got = do_call(*obj[slot], c), ex = oracle(c);
+            rep().stat("transitions");
+            rep().stat("evaluations");
+            if (got != ex)
+            {
+                size_t k = 0;
+                while (k < got.size() && got[k] == ex[k]) k++;
+                rep().viol("C19.wrong.NTT.lifetimes", cs_, fmt("event %zu (use of the object in slot %d, domain %llu): element %zu = %s expected %s", i, slot, (unsigned long long)DOM[slot], k, hex(got[k]).c_str(), hex(ex[k]).c_str()));
+                break;
+            }
+        }
+    }
+    for (int sl = 0; sl < 3; sl++) delete obj[sl];
+    for (void *p : junk) free(p);
+    rep().stat("lifetime_histories");
+}
+static void lifetime_enum(std::vector<std::vector<int>> &out, std::vector<int> &cur, int live, int maxlen)
+{
+    if (!cur.empty() && cur.back() / 3 == 2) out.push_back(cur); // histories that end in a use
+    if ((int)cur.size() == maxlen) return;
+    for (int e = 0; e < 9; e++)
+    {
+        int kind = e / 3, slot = e % 3;
+        bool isl = (live >> slot) & 1;
+        if ((kind == 0) == isl) continue; // new needs an empty slot, delete / use a live one
+        if (kind == 2 && !cur.empty() && cur.back() == e) continue; // the same use twice in a row adds nothing
+        cur.push_back(e);
+        lifetime_enum(out, cur, kind == 0 ? live | (1 << slot) : kind == 1 ? live & ~(1 << slot) : live, maxlen);
+        cur.pop_back();
+    }
+}
+
 // GMP's allocator belongs to the application (mp_set_memory_functions): here every GMP block carries a 16-byte header, so a block
 // that GMP allocated and the library releases with libc free() -- or the reverse -- is an invalid free (glibc aborts, ASan reports it)
 static void *gm_alloc(size_t n)
@@ -266,6 +325,16 @@ int main(int argc, char **argv)
             Cfg cfg{cu(m, "D"), (unsigned)cu(m, "nthreads"), 4};
             ChildResult r = run_child([&](FILE *f) { omp_set_num_threads(cfg.base_omp); NTT_Goldilocks o(cfg.D, cfg.nthreads); fprintf(f, "ok"); });
             if (r.kind != 0) rep().viol(fmt("C19.%s.constructor", crash_sig(r).c_str()), args.one, "constructing the transform object ended the process: " + err_tail(r));
+            rep().flush();
+            return 0;
+        }
+        if (cu(m, "deep", 0) == 4)
+        {
+            std::vector<int> hist;
+            for (u64 x : culist(m, "hist")) hist.push_back((int)x);
+            ChildResult r = run_child([&](FILE *f) { dup2(fileno(f), 1); rep().reset(); lifetime_history(hist); rep().flush(); fflush(stdout); }, 120);
+            if (r.kind == 0) fwrite(r.out.data(), 1, r.out.size(), stdout);
+            else rep().viol(fmt("C19.%s.lifetimes", crash_sig(r).c_str()), args.one, err_tail(r));
             rep().flush();
             return 0;
         }
@@ -451,6 +520,21 @@ int main(int argc, char **argv)
                 nontriv += (long long)EH.size() - (long long)EA.size();
             }
             printf("INFO deep: all %zu histories up to depth 3 over %zu calls on objects constructed with extension 2, 4, 8\n", EH.size(), EA.size());
+        }
+        {
+            // object lifetimes
+            std::vector<std::vector<int>> LH;
+            std::vector<int> cur;
+            lifetime_enum(LH, cur, 0, th ? 7 : 6);
+            isolated_for((long)LH.size(), args.jobs, 256, [&](long i) { lifetime_history(LH[i]); },
+                         [&](long i, const ChildResult &r) {
+                             std::string hs;
+                             for (int e : LH[i]) hs += (hs.empty() ? "" : ",") + std::to_string(e);
+                             rep().viol(fmt("C19.%s.lifetimes", crash_sig(r).c_str()), "deep=4 D=8 nthreads=2 hist=" + hs, err_tail(r));
+                         }, 300);
+            total_states += (long long)LH.size();
+            nontriv += (long long)LH.size();
+            printf("INFO deep: all %zu well-formed new/delete/use sequences up to length %d over three object slots (domains 8, 8, 16)\n", LH.size(), th ? 7 : 6);
         }
         printf("INFO deep: all %zu histories up to depth %d over %zu large calls (sizes 2^12..2^14), no state merging\n", H.size(), depth, A.size());
         rep().sample("deep-history", "\"history\":\"extendPol(2^13<-2^12), extendPol(2^13<-2^13), extendPol(2^14<-2^12), extendPol(2^14<-2^13,2 cols,2 blocks): last call compared with a fresh object\"", 1);
